@@ -37,7 +37,10 @@ func init() {
 }
 
 // signature / key states of one server
-var states = []string{"valid", "absent", "corrupted", "other-key", "key-absent", "expired-at-ts", "expired-after-ts", "valid-until-before-ts", "valid-until-at-ts", "beyond-7d-cap", "within-7d-cap"}
+var states = []string{"valid", "absent", "corrupted", "other-key", "key-absent", "expired-at-ts", "expired-after-ts", "valid-until-before-ts", "valid-until-at-ts", "beyond-7d-cap", "within-7d-cap",
+	// states with a second acquisition route (a key fetcher behind the database): the key is only at the fetcher; the database
+	// holds it past its validity and the fetcher, asked to refresh it, reports it retired before ts / still current
+	"key-from-fetcher", "refreshed-retired", "refreshed-current"}
 
 type c06Case struct {
 	Version string
@@ -64,6 +67,23 @@ func (d *db) FetchKeys(ctx context.Context, reqs map[gmsl.PublicKeyLookupRequest
 }
 func (d *db) StoreKeys(ctx context.Context, res map[gmsl.PublicKeyLookupRequest]gmsl.PublicKeyLookupResult) error {
 	return nil
+}
+
+type fetcher struct {
+	keys  map[gmsl.PublicKeyLookupRequest]gmsl.PublicKeyLookupResult
+	calls int
+}
+
+func (f *fetcher) FetcherName() string { return "scripted-fetcher" }
+func (f *fetcher) FetchKeys(ctx context.Context, reqs map[gmsl.PublicKeyLookupRequest]spec.Timestamp) (map[gmsl.PublicKeyLookupRequest]gmsl.PublicKeyLookupResult, error) {
+	f.calls++
+	out := map[gmsl.PublicKeyLookupRequest]gmsl.PublicKeyLookupResult{}
+	for rq := range reqs {
+		if k, ok := f.keys[rq]; ok {
+			out[rq] = k
+		}
+	}
+	return out, nil
 }
 
 func uid(_ spec.RoomID, s spec.SenderID) (*spec.UserID, error) {
@@ -182,6 +202,7 @@ func runCase(r *harness.Run, c c06Case) error {
 	v := evgen.MustParse(text)
 	sigs := map[string]map[string][]byte{}
 	d := &db{keys: map[gmsl.PublicKeyLookupRequest]gmsl.PublicKeyLookupResult{}}
+	f := &fetcher{keys: map[gmsl.PublicKeyLookupRequest]gmsl.PublicKeyLookupResult{}}
 	now := clockFor(c.States)
 	for _, s := range servers {
 		st := c.States[s]
@@ -211,6 +232,16 @@ func runCase(r *harness.Run, c c06Case) error {
 			res.ValidUntilTS = spec.Timestamp(T)
 		case "beyond-7d-cap", "within-7d-cap":
 			res.ValidUntilTS = spec.Timestamp(T + 100*day)
+		case "key-from-fetcher":
+			f.keys[gmsl.PublicKeyLookupRequest{ServerName: spec.ServerName(s), KeyID: gmsl.KeyID(k.KeyID)}] = res
+			res.Key = nil
+		case "refreshed-retired":
+			// the database's record: not expired, valid until half an hour after ts, which is half an hour ago
+			res.ValidUntilTS = spec.Timestamp(T + 1_800_000)
+			f.keys[gmsl.PublicKeyLookupRequest{ServerName: spec.ServerName(s), KeyID: gmsl.KeyID(k.KeyID)}] = gmsl.PublicKeyLookupResult{VerifyKey: res.VerifyKey, ValidUntilTS: gmsl.PublicKeyNotValid, ExpiredTS: spec.Timestamp(T - 1000)}
+		case "refreshed-current":
+			f.keys[gmsl.PublicKeyLookupRequest{ServerName: spec.ServerName(s), KeyID: gmsl.KeyID(k.KeyID)}] = res
+			res.ValidUntilTS = spec.Timestamp(T - 1)
 		}
 		if sig != nil {
 			sigs[s] = map[string][]byte{k.KeyID: sig}
@@ -229,6 +260,19 @@ func runCase(r *harness.Run, c c06Case) error {
 		vnow = time.UnixMilli(now) // replay path; during exploration the group's clock is already set
 	}
 	ring := &gmsl.KeyRing{KeyDatabase: d}
+	if len(f.keys) > 0 {
+		ring.KeyFetchers = []gmsl.KeyFetcher{f}
+	}
+	// the ring asks its fetchers when the database cannot settle the batch on its own: a required key is missing there, or
+	// a check made with the database's records fails. A record that is merely past its validity *now* is otherwise used as
+	// it stands (and judged at ts).
+	consulted := false
+	for _, s := range required {
+		switch c.States[s] {
+		case "key-from-fetcher", "key-absent":
+			consulted = true
+		}
+	}
 	var got error
 	if p, msg := harness.Try(func() { got = gmsl.VerifyEventSignatures(context.Background(), pdu, ring, uid) }); p {
 		return fmt.Errorf("VerifyEventSignatures panics: %s", msg)
@@ -241,6 +285,12 @@ func runCase(r *harness.Run, c c06Case) error {
 		switch st {
 		case "absent", "corrupted", "other-key", "key-absent":
 			ok = false
+		case "key-from-fetcher", "refreshed-current":
+			fr := f.keys[gmsl.PublicKeyLookupRequest{ServerName: spec.ServerName(s), KeyID: "ed25519:1"}]
+			ok = validAt(T, int64(fr.ValidUntilTS), int64(fr.ExpiredTS), now, row.StrictKeyValidity)
+		case "refreshed-retired":
+			// once asked, the fetcher's answer (retired before ts) replaces the database's record
+			ok = !consulted
 		default:
 			res := d.keys[gmsl.PublicKeyLookupRequest{ServerName: spec.ServerName(s), KeyID: "ed25519:1"}]
 			ok = validAt(T, int64(res.ValidUntilTS), int64(res.ExpiredTS), now, row.StrictKeyValidity)
@@ -269,11 +319,16 @@ func runCase(r *harness.Run, c c06Case) error {
 	return nil
 }
 
+func capState(st string) bool { return st == "beyond-7d-cap" || st == "within-7d-cap" }
+func fetcherState(st string) bool {
+	return st == "key-from-fetcher" || st == "refreshed-retired" || st == "refreshed-current"
+}
+
 func main() { harness.Main("C06", "fault_enumeration", run) }
 
 func run(r *harness.Run) {
 	verifhook.Clock = func() time.Time { return vnow }
-	r.Rule("13 event shapes (message; member join/knock/leave/kick/ban/invite to another and to the same server; invite carrying third_party_invite; join and invite carrying join_authorised_via_users_server; other state; v1/v2 event ID naming another server) x 15 room versions x per-server state in {valid, absent, corrupted, made by another key under the same key ID, key unknown, expired at / after ts, valid_until before / at ts, valid_until beyond / within the 7-day cap}: every single server (5, incl. an unrelated one) in every state, and every pair of servers in every pair of states; real KeyRing over a scripted database, virtual clock placed so that the cap boundary is exact. Oracle: accept <=> every server in the reference required set has a valid-at-ts signature under the version's rule. Pseudo-ID version (own sub-harness): message / leave / invite / join x sender-key signature state x invited-key signature state x 11 mxid_mapping states (valid, missing, unsigned, signed only by another server, corrupted, wrong key, key unknown / expired / past validity, valid plus a bad or unknown other-server signature) x an unrelated server signature on the event; accept <=> the sender key (and for invites the invited key) signed the event and, for joins, the mapping carries a valid-at-ts signature of the mapped user's server. Non-trivial = distinct case with at most one failing required signer.")
+	r.Rule("13 event shapes (message; member join/knock/leave/kick/ban/invite to another and to the same server; invite carrying third_party_invite; join and invite carrying join_authorised_via_users_server; other state; v1/v2 event ID naming another server) x 15 room versions x per-server state in {valid, absent, corrupted, made by another key under the same key ID, key unknown, expired at / after ts, valid_until before / at ts, valid_until beyond / within the 7-day cap; with a key fetcher behind the database: key only at the fetcher, database record past its validity refreshed as retired-before-ts / as current}: every single server (5, incl. an unrelated one) in every state, and every pair of servers in every pair of states; real KeyRing over a scripted database, virtual clock placed so that the cap boundary is exact. Oracle: accept <=> every server in the reference required set has a valid-at-ts signature under the version's rule. Pseudo-ID version (own sub-harness): message / leave / invite / join x sender-key signature state x invited-key signature state x 11 mxid_mapping states (valid, missing, unsigned, signed only by another server, corrupted, wrong key, key unknown / expired / past validity, valid plus a bad or unknown other-server signature) x an unrelated server signature on the event; accept <=> the sender key (and for invites the invited key) signed the event and, for joins, the mapping carries a valid-at-ts signature of the mapped user's server. Non-trivial = distinct case with at most one failing required signer.")
 	r.Assume("ed25519 trusted; reference signatures are made over the reference redaction (agreement with the library's redaction is C05)", "for org.matrix.msc4014 (pseudo IDs) the \"sender's server\" of a join is the server of the user the mxid_mapping names")
 	r.OnReplay("case", func(raw json.RawMessage) error {
 		var c c06Case
@@ -310,6 +365,9 @@ func run(r *harness.Run) {
 						for _, st2 := range states[1:] {
 							if (st == "beyond-7d-cap" && st2 == "within-7d-cap") || (st == "within-7d-cap" && st2 == "beyond-7d-cap") {
 								continue // contradictory clock positions
+							}
+							if capState(st) && fetcherState(st2) || capState(st2) && fetcherState(st) {
+								continue // the fetcher-route states are defined for a clock one hour after the event
 							}
 							cases = append(cases, c06Case{Version: v, Shape: sh, States: map[string]string{s: st, s2: st2}})
 						}
